@@ -18,6 +18,9 @@ Proof. apply map_app. Qed.
 Lemma strides_of_app a b : strides_of (a ++ b) = strides_of a ++ strides_of b.
 Proof. apply map_app. Qed.
 
+Lemma nthN_shape_of dims k : nthN (shape_of dims) k 0 = d_size (nthN dims k (0, 0)).
+Proof. unfold nthN, shape_of. change 0 with (d_size (0, 0)) at 1. apply map_nth. Qed.
+
 (* offsets listed dimension by dimension = offsets computed index by index *)
 Lemma off_list_dot dims :
   off_list dims = map (fun idx => dotN idx (strides_of dims)) (indices (shape_of dims)).
